@@ -54,15 +54,27 @@ import (
 	"encoding/hex"
 	"fmt"
 	"go/ast"
+	"go/parser"
 	"go/printer"
 	"go/token"
 	"go/types"
+	"os"
+	"os/exec"
+	"path/filepath"
 	"sort"
 	"strconv"
 	"strings"
 )
 
 func init() { register("PanicSites", genPanicSites) }
+
+// functions without a site of their own whose bodies carry the guards that the ByTheorem
+// justifications of spec/PanicSpec.v rest on; their hashes are always emitted
+var psAnchors = map[string]bool{
+	"getSignerVerifierFromKey":     true, // validateKeyVal + ed25519 length checks in front of the sslib constructors (F15)
+	"validateKeyVal":               true,
+	"VerifyLinkSignatureThesholds": true, // a step without verified links fails (F14)
+}
 
 type psSite struct {
 	file, fn, kind, expr, guard string
@@ -95,12 +107,13 @@ type psCtx struct {
 	fn    string
 	fd    *ast.FuncDecl
 	// per function
-	parent    map[ast.Node]ast.Node
-	lenAlias  map[string]string // v -> x          when v := len(x) is the only definition of v
-	sameLen   map[string]string // y -> x          when y := make(T, len(x)) / make(T, v) is the only definition of y
-	okAsserts map[*ast.TypeAssertExpr]bool
-	lhsIndex  map[*ast.IndexExpr]bool
-	typeCtx   map[ast.Expr]bool // StarExpr nodes that are types
+	parent      map[ast.Node]ast.Node
+	lenAlias    map[string]string // v -> x          when v := len(x) is the only definition of v
+	sameLen     map[string]string // y -> x          when y := make(T, len(x)) / make(T, v) is the only definition of y
+	okAsserts   map[*ast.TypeAssertExpr]bool
+	lhsIndex    map[*ast.IndexExpr]bool
+	typeCtx     map[ast.Expr]bool // StarExpr nodes that are types
+	extraHashes [][3]string
 }
 
 func psText(fset *token.FileSet, n ast.Node) string {
@@ -366,39 +379,90 @@ func (c *psCtx) siblingFacts(list []ast.Stmt, child ast.Node, g *psGuard) {
 			break
 		}
 		ifs, ok := st.(*ast.IfStmt)
-		if !ok || ifs.Else != nil || !psTerminates(ifs.Body) {
+		if !ok {
 			continue
 		}
-		f := psFacts{}
-		c.condFacts(ifs.Cond, false, f)
-		g.merge(f, ifs.End())
+		if ifs.Else == nil {
+			if psTerminates(ifs.Body) {
+				f := psFacts{}
+				c.condFacts(ifs.Cond, false, f)
+				g.merge(f, ifs.End())
+			}
+			continue
+		}
+		// if c1 {A} else if c2 {B} ... else {terminates}: afterwards the condition of one of the
+		// branches that fall through held; keep what all of them imply (pointwise minimum)
+		var branches []psFacts
+		closed := false
+		for cur := ifs; ; {
+			if !psTerminates(cur.Body) {
+				f := psFacts{}
+				c.condFacts(cur.Cond, true, f)
+				branches = append(branches, f)
+			}
+			switch e := cur.Else.(type) {
+			case *ast.IfStmt:
+				cur = e
+				continue
+			case *ast.BlockStmt:
+				closed = psTerminates(e)
+			}
+			break
+		}
+		if !closed || len(branches) == 0 {
+			continue
+		}
+		common := psFacts{}
+		for k, v := range branches[0] {
+			common[k] = v
+		}
+		for _, b := range branches[1:] {
+			for k, v := range common {
+				w, ok := b[k]
+				if !ok {
+					delete(common, k)
+				} else if w < v {
+					common[k] = w
+				}
+			}
+		}
+		g.merge(common, ifs.End())
 	}
 }
 
-// assignedBetween reports whether the root identifier of the operand text is assigned (or its
-// address taken, or inc/dec'ed) at a position in (from, to).
+// assignedBetween reports whether the operand, or a value it is reached through (for layout.Steps:
+// layout.Steps or layout; NOT layout.Steps[i]), is assigned, inc/dec'ed, range-assigned or has its
+// address taken at a position in (from, to).
 func (c *psCtx) assignedBetween(operand ast.Expr, from, to token.Pos) bool {
-	root := psRootIdent(operand)
-	if root == "" {
+	if psRootIdent(operand) == "" {
 		return true
 	}
+	return c.assignedBetweenText(c.text(psUnparen(operand)), from, to)
+}
+
+func (c *psCtx) assignedBetweenText(os string, from, to token.Pos) bool {
 	bad := false
 	ast.Inspect(c.fd.Body, func(n ast.Node) bool {
 		if n == nil || bad {
 			return false
 		}
 		check := func(e ast.Expr, pos token.Pos) {
-			if pos > from && pos < to && psRootIdent(e) == root {
+			if pos <= from || pos >= to {
+				return
+			}
+			ls := c.text(psUnparen(e))
+			if ls == os || strings.HasPrefix(os, ls+".") || strings.HasPrefix(os, ls+"[") {
 				bad = true
 			}
 		}
 		switch x := n.(type) {
 		case *ast.AssignStmt:
+			// the assignment takes effect after its right-hand side has been evaluated
 			for _, l := range x.Lhs {
-				check(l, x.Pos())
+				check(l, x.End())
 			}
 		case *ast.IncDecStmt:
-			check(x.X, x.Pos())
+			check(x.X, x.End())
 		case *ast.UnaryExpr:
 			if x.Op == token.AND {
 				check(x.X, x.Pos())
@@ -450,7 +514,7 @@ func (c *psCtx) lenGuard(n ast.Node, operand ast.Expr, need int) string {
 	for _, nm := range names {
 		k := "len:" + nm
 		if v, ok := g.facts[k]; ok && v >= need {
-			if c.assignedBetween(operand, g.pos[k], n.Pos()) {
+			if psRootIdent(operand) == "" || c.assignedBetweenText(nm, g.pos[k], n.Pos()) {
 				continue
 			}
 			return fmt.Sprintf("len>=%d", need)
@@ -826,20 +890,7 @@ func (c *psCtx) walkFunc(fd *ast.FuncDecl) {
 				c.add(x, "deref", c.text(x), c.derefGuard(x, x.X))
 			}
 		case *ast.SelectorExpr:
-			// p.f / p.M() where p is a pointer obtained directly from a map read, a call or an assertion
-			switch b := psUnparen(x.X).(type) {
-			case *ast.IndexExpr, *ast.CallExpr, *ast.TypeAssertExpr:
-				if ptr, known := c.isPointer(b.(ast.Expr)); known && ptr {
-					if ix, ok := b.(*ast.IndexExpr); ok && c.indexKind(ix.X) != "map" {
-						break
-					}
-					if call, ok := b.(*ast.CallExpr); ok {
-						// conversions and constructors returning the address of a literal are not nil; keep it simple: all calls count
-						_ = call
-					}
-					c.add(x, "deref", c.text(x), c.derefGuard(x, b.(ast.Expr)))
-				}
-			}
+			c.siteSelector(x)
 		case *ast.BinaryExpr:
 			if (x.Op == token.QUO || x.Op == token.REM) && c.isIntegerOrUnknown(x.X) && c.isIntegerOrUnknown(x.Y) {
 				if tv, ok := c.info.Types[x.Y]; ok && tv.Value != nil {
@@ -859,6 +910,90 @@ func (c *psCtx) walkFunc(fd *ast.FuncDecl) {
 		}
 		return true
 	})
+}
+
+// mapReadDef: id is a local variable whose only definition is `id := m[k]` (single-value map read)
+// or `var id T` without a value; returns a short description, "" otherwise
+func (c *psCtx) mapReadDef(id *ast.Ident) string {
+	obj := c.info.Uses[id]
+	if obj == nil {
+		return ""
+	}
+	if !(obj.Pos() >= c.fd.Body.Pos() && obj.Pos() <= c.fd.Body.End()) {
+		return ""
+	}
+	res := ""
+	ast.Inspect(c.fd.Body, func(n ast.Node) bool {
+		switch x := n.(type) {
+		case *ast.AssignStmt:
+			if x.Tok == token.DEFINE && len(x.Lhs) == 1 && len(x.Rhs) == 1 {
+				if l, ok := x.Lhs[0].(*ast.Ident); ok && c.info.Defs[l] == obj {
+					if ix, ok := psUnparen(x.Rhs[0]).(*ast.IndexExpr); ok && c.indexKind(ix.X) == "map" {
+						res = "map-read"
+					}
+				}
+			}
+		case *ast.ValueSpec:
+			for _, nm := range x.Names {
+				if c.info.Defs[nm] == obj && len(x.Values) == 0 {
+					res = "zero-var"
+				}
+			}
+		}
+		return true
+	})
+	return res
+}
+
+// siteSelector: p.f where p is a pointer, x.M() where x is an interface, when p / x comes directly
+// from a map read (expression m[k], or a local defined as `v := m[k]` / declared `var v T`), and p.f
+// where p is the pointer result of a call or of an unchecked type assertion
+func (c *psCtx) siteSelector(x *ast.SelectorExpr) {
+	base := psUnparen(x.X)
+	t := c.typeOf(base)
+	if t == nil {
+		return
+	}
+	_, isPtr := t.Underlying().(*types.Pointer)
+	isIface := types.IsInterface(t)
+	if !isPtr && !isIface {
+		return
+	}
+	sel := c.info.Selections[x]
+	if sel == nil {
+		return
+	}
+	if isPtr && sel.Kind() != types.FieldVal {
+		return // a method call on a nil pointer does not dereference at the call
+	}
+	if isIface && sel.Kind() != types.MethodVal {
+		return
+	}
+	origin := ""
+	switch b := base.(type) {
+	case *ast.IndexExpr:
+		if c.indexKind(b.X) == "map" {
+			origin = "map-read"
+		}
+	case *ast.Ident:
+		origin = c.mapReadDef(b)
+	case *ast.CallExpr:
+		if isPtr {
+			origin = "call"
+		}
+	case *ast.TypeAssertExpr:
+		if isPtr && !c.okAsserts[b] {
+			origin = "assert"
+		}
+	}
+	if origin == "" {
+		return
+	}
+	kind := "deref"
+	if isIface {
+		kind = "ifacecall"
+	}
+	c.add(x, kind, c.text(x), c.derefGuard(x, base))
 }
 
 // inTypePosition: a StarExpr that the (error tolerant) type check did not classify: treat
@@ -969,6 +1104,13 @@ func (c *psCtx) siteIndex(x *ast.IndexExpr) {
 		if guard == "none" {
 			guard = c.lenGuard(x, x.X, n+1)
 		}
+	} else if be, ok := psUnparen(x.Index).(*ast.BinaryExpr); ok && be.Op == token.SUB {
+		// x[len(x)-K]
+		if xs, ok := c.lenOperand(be.X); ok && xs == c.text(psUnparen(x.X)) {
+			if kk, ok := psIntLit(be.Y); ok && kk >= 1 {
+				guard = c.lenGuard(x, x.X, kk)
+			}
+		}
 	} else {
 		guard = c.loopGuard(x, x.X, x.Index)
 	}
@@ -1051,9 +1193,10 @@ func genPanicSites(repo string) (string, error) {
 	conf := types.Config{Importer: &psImporter{cache: map[string]*types.Package{}}, Error: func(error) {},
 		FakeImportC: true, DisableUnusedImportCheck: true}
 	info := &types.Info{
-		Defs:  map[*ast.Ident]types.Object{},
-		Uses:  map[*ast.Ident]types.Object{},
-		Types: map[ast.Expr]types.TypeAndValue{},
+		Defs:       map[*ast.Ident]types.Object{},
+		Uses:       map[*ast.Ident]types.Object{},
+		Types:      map[ast.Expr]types.TypeAndValue{},
+		Selections: map[*ast.SelectorExpr]*types.Selection{},
 	}
 	if pkg, _ := conf.Check("in_toto", fset, files, info); pkg == nil {
 		return "", fmt.Errorf("type check of in_toto produced no package")
@@ -1072,7 +1215,7 @@ func genPanicSites(repo string) (string, error) {
 			nfuncs++
 			before := len(c.sites)
 			c.walkFunc(fd)
-			if len(c.sites) > before {
+			if len(c.sites) > before || psAnchors[psFuncName(fd)] {
 				hashes = append(hashes, fh{fname, psFuncName(fd), psFuncHash(fset, fd)})
 			}
 		}
@@ -1122,6 +1265,13 @@ func genPanicSites(repo string) (string, error) {
 			}
 		}
 	}
+	// the signer/verifier constructors of go-securesystemslib that getSignerVerifierFromKey calls, and
+	// their Sign/Verify methods (version required by the repository's go.mod, read from the module cache):
+	// syntactic scan (no type information; every index expression counts)
+	sslibNote := psScanSSLib(repo, c)
+	for _, h := range c.extraHashes {
+		hashes = append(hashes, fh{h[0], h[1], h[2]})
+	}
 	sort.SliceStable(c.sites, func(i, j int) bool {
 		a, b := c.sites[i], c.sites[j]
 		if a.file != b.file {
@@ -1169,6 +1319,106 @@ func genPanicSites(repo string) (string, error) {
 		}
 		fmt.Fprintf(&sb, "  (%s, %s, %s)%s\n", psCoqStr(h.file), psCoqStr(h.fn), psCoqStr(h.hash), sep)
 	}
-	sb.WriteString("].\n")
+	sb.WriteString("].\n\n")
+	fmt.Fprintf(&sb, "(* %s *)\nDefinition gen_sslib_scanned : bool := %v.\n", sslibNote, strings.HasPrefix(sslibNote, "scanned"))
 	return sb.String(), nil
+}
+
+// psScanSSLib adds the sites of signerverifier/{rsa,ecdsa,ed25519}.go (constructors ...FromSSLibKey and the
+// Sign / Verify methods) under the file names sslib/<file>.
+func psScanSSLib(repo string, c *psCtx) string {
+	const mod = "github.com/secure-systems-lab/go-securesystemslib"
+	gomod, err := os.ReadFile(filepath.Join(repo, "go.mod"))
+	if err != nil {
+		return "go.mod not readable"
+	}
+	ver := ""
+	for _, line := range strings.Split(string(gomod), "\n") {
+		f := strings.Fields(line)
+		for i := 0; i+1 < len(f); i++ {
+			if f[i] == mod {
+				ver = f[i+1]
+			}
+		}
+	}
+	if ver == "" {
+		return "go-securesystemslib not required by go.mod"
+	}
+	var roots []string
+	if v := os.Getenv("GOMODCACHE"); v != "" {
+		roots = append(roots, v)
+	}
+	if out, err := exec.Command("go", "env", "GOMODCACHE").Output(); err == nil {
+		roots = append(roots, strings.TrimSpace(string(out)))
+	}
+	if h, err := os.UserHomeDir(); err == nil {
+		roots = append(roots, filepath.Join(h, "go", "pkg", "mod"))
+	}
+	dir := ""
+	for _, r := range roots {
+		d := filepath.Join(r, mod+"@"+ver, "signerverifier")
+		if st, err := os.Stat(d); err == nil && st.IsDir() {
+			dir = d
+			break
+		}
+	}
+	if dir == "" {
+		return "module " + mod + "@" + ver + " not found in the module cache"
+	}
+	fset := token.NewFileSet()
+	for _, fn := range []string{"ecdsa.go", "ed25519.go", "rsa.go"} {
+		f, err := parser.ParseFile(fset, filepath.Join(dir, fn), nil, 0)
+		if err != nil {
+			return "cannot parse " + fn
+		}
+		for _, d := range f.Decls {
+			fd, ok := d.(*ast.FuncDecl)
+			if !ok || fd.Body == nil {
+				continue
+			}
+			name := psFuncName(fd)
+			if !(strings.HasSuffix(name, "FromSSLibKey") || strings.HasSuffix(name, ".Sign") || strings.HasSuffix(name, ".Verify")) {
+				continue
+			}
+			okAssert := map[*ast.TypeAssertExpr]bool{}
+			ast.Inspect(fd.Body, func(n ast.Node) bool {
+				if as, ok := n.(*ast.AssignStmt); ok && len(as.Lhs) == 2 && len(as.Rhs) == 1 {
+					if ta, ok := psUnparen(as.Rhs[0]).(*ast.TypeAssertExpr); ok {
+						okAssert[ta] = true
+					}
+				}
+				return true
+			})
+			ast.Inspect(fd.Body, func(n ast.Node) bool {
+				kind := ""
+				switch x := n.(type) {
+				case *ast.TypeAssertExpr:
+					if x.Type != nil && !okAssert[x] {
+						kind = "assert"
+					}
+				case *ast.IndexExpr:
+					kind = "index"
+				case *ast.SliceExpr:
+					kind = "slice"
+				case *ast.CallExpr:
+					if id, ok := x.Fun.(*ast.Ident); ok && id.Name == "panic" {
+						kind = "panic"
+					}
+					// calls whose documented contract panics on a wrong key length
+					if sel, ok := x.Fun.(*ast.SelectorExpr); ok {
+						if pk, ok := sel.X.(*ast.Ident); ok && pk.Name == "ed25519" && (sel.Sel.Name == "Sign" || sel.Sel.Name == "Verify") {
+							kind = "keylen-call"
+						}
+					}
+				}
+				if kind != "" {
+					c.sites = append(c.sites, psSite{file: "sslib/" + fn, fn: name, kind: kind, expr: psText(fset, n),
+						guard: "none", line: fset.Position(n.Pos()).Line})
+				}
+				return true
+			})
+			c.extraHashes = append(c.extraHashes, [3]string{"sslib/" + fn, name, psFuncHash(fset, fd)})
+		}
+	}
+	return "scanned " + mod + "@" + ver + "/signerverifier"
 }
